@@ -366,6 +366,7 @@ pub fn run(tier: &str, seed: u64) -> i32 {
         named U+0000..U+0003), removed or altered at the top level, and unaddressed keys added inside every nested \
         object - get the same verdict under every switch set; the recording and the plain document agree. \
         Unaddressed variants include top-level decoys named like the inner segments of the written paths. \
+        Wide or-groups (129-300 mappings, one field with >= 256 entries next to one with few) are included. \
         Non-trivial: the (optimised) expression holds a matrix or a nested block; distinct by rule text."
         .into();
     let findings = load_findings();
